@@ -425,6 +425,18 @@ func ruleC06SubRaw(c *Checker) {
 			case !guarded(inc.Block(), twoF):
 				okRun, why = false, "the cut is moved although what follows may be \"//\" (the not-\"//\" test does not guard it)"
 			}
+			if okRun && inc != nil {
+				// what is cut off as the sub-path is cut at the moved index: a slice whose low bound depends on the increment
+				usesInc := false
+				eachInstr(split, func(in ssa.Instruction) {
+					if sl, ok := in.(*ssa.Slice); ok && sl.Low != nil && p.backSlice(sl.Low, 0)[ssa.Value(inc)] {
+						usesInc = true
+					}
+				})
+				if !usesInc {
+					okRun, why = false, "the sub-path is cut out before the cut was moved: the moved index only shortens the package text, the sub-path keeps its leading slash and is refused"
+				}
+			}
 			c.check(okRun, R, sname, "three-slash run: the first slash stays with the package", p.Pos(one.Pos()), "HasPrefix \"/\" and not HasPrefix \"//\" of what follows the cut move the cut by one", why)
 		}
 	}
@@ -460,7 +472,11 @@ func (p *Prog) sanitiserRefuses(fn *ssa.Function, d string) (bool, string) {
 				if sameModuloClean(a, v) {
 					return true
 				}
-				// the test may be made on what the value is computed from
+				// the test may be made on what the value is computed from — unless the value has several
+				// inputs (a join): testing one of them says nothing about the other
+				if jc := callOf(canon(v)); jc != nil && (isFunc(calleeObj(jc), "path", "Join") || isFunc(calleeObj(jc), "path/filepath", "Join")) && len(joinArgs(jc)) > 1 {
+					return false
+				}
 				for w := range p.backSlice(v, 0) {
 					if w == canon(a) || w == a {
 						return true
